@@ -121,9 +121,29 @@ FILTERS = ["|v| true", "|v| false", "|v| v != 2", "|v| v == v"]
 FILTERS_NUM = ["|v| v > 1", "|v| v % 2 == 0"]
 
 
+UTF8_EDGE = ["\u007f", "\u0080", "\u07ff", "\u0800", "\u0fff", "\u1000", "\ud7ff", "\ue000", "\uffff", "\U00010000", "\U0010ffff",
+             "a", "\u00e9", "\u20ac", "\U0001f600", "\u0e01", "\u0928"]
+
+
+def edge_string(r):
+    """a string literal over characters sitting on every UTF-8 length / lead-byte boundary"""
+    return "\"" + "".join(r.choice(UTF8_EDGE) for _ in range(r.range(1, 5))) + "\""
+
+
 def iter_program(rng):
     r = rng
     L = [USER_ITERS]
+    for _ in range(r.range(0, 2)):
+        s = edge_string(r)
+        k = r.below(4)
+        if k == 0:
+            L.append("for ch in %s { print([ch, ch.len()]); }" % s)
+        elif k == 1:
+            L.append("print(%s.iter().map(|c| c.to_code_points()).collect());" % s)
+        elif k == 2:
+            L.append("print(%s.iter().filter(|c| c.len() > %d).map(|c| \"<${c}>\").collect());" % (s, r.below(4)))
+        else:
+            L.append("{ var it = %s.iter(); print(it.next()); print(it.next()); for rest in it { print(rest.to_bytes()); } }" % s)
     for _ in range(r.range(3, 9)):
         c = r.below(100)
         if c < 25:
